@@ -80,6 +80,16 @@ Section Times.
   Definition lookup_time_presented (tab : list lc_entry) (all : list M) (s : sctx M) (t : N) : N :=
     lookup_time (msg_time_presented tab) all s t.
 
+  (* `calculated_time_us` of utils::buffer_sort_messages (the sort thread of sort:true; C10's subject), for the start value
+     the sorter has CACHED for the lifecycle (`lc_map`: the published start_time at the time the sorter saw the lifecycle's
+     first message - never refreshed): cached start + timestamp, capped at the reception time *)
+  Definition sort_key (cached : list lc_entry) (m : M) : N := N.min (msg_time cached m) (rt_of m).
+  Fixpoint ordered_by (key : M -> N) (l : list M) : bool :=
+    match l with
+    | a :: ((b :: _) as r) => (key a <=? key b) && ordered_by key r
+    | _ => true
+    end.
+
   (* a resumed entry whose start is at or before the start recorded for its origin: the only kind of entry on which
      resume_start_time() differs from start_time *)
   Definition moved_resume (e : lc_entry) : bool :=
